@@ -92,6 +92,13 @@ func compareW(c *drv.Ctx, i int64, fam, what string, msg, sig []byte, pk [67]byt
 	}
 }
 
+func short12(s string) string {
+	if len(s) > 12 {
+		return s[:12]
+	}
+	return s
+}
+
 func short(s string) string {
 	if len(s) > 7 && s[:7] == "refused" {
 		return "refused"
@@ -467,6 +474,44 @@ func main() {
 					what += " message bit flipped"
 				}
 				compareW(c, i, "custom-w-deviation", what, m2, s2, pk, true, lw)
+			}
+		}})
+	// messages whose length does not fit 32 bits
+	ck.Domains = append(ck.Domains, &drv.Domain{Name: "message-length-mod-2^32", Size: 2, Chunk: 2,
+		Desc: "a valid signature over k zero bytes (k = 5, 0) presented with a message of 2^32 + k zero bytes (a read-only no-reserve mapping): a different message, must not be accepted (a hash input assembled with 32-bit lengths sees only len mod 2^32 bytes)",
+		Run: func(c *drv.Ctx, lo, hi int64) {
+			for i := lo; i < hi; i++ {
+				c.At(i)
+				k := []int{5, 0}[i]
+				if c.Tier != "thorough" && i > 0 {
+					continue // quick: k = 5 only (every case hashes 4 GiB once the lengths are handled correctly)
+				}
+				sd := seeds.Seed48(3, c.Seed)
+				rk := refxmss.NewKey(sd[:], 4, refxmss.SHA2_256) // SHA-256: the fastest of the three on 4 GiB
+				short := make([]byte, k)
+				sig := rk.Sign(uint32(3+i), short)
+				var pk [67]byte
+				copy(pk[:], rk.PK())
+				if !refxmss.Verify(short, sig, pk[:], 16) || libVerify(short, sig, pk, 0) != "true" {
+					c.Fail(i, "giant:base-signature-not-valid(infrastructure)", nil)
+					continue
+				}
+				giant, release := drv.GiantZeros(1<<32 + uint64(k))
+				if giant == nil {
+					c.Cap("a 4 GiB no-reserve mapping was refused: message-length-mod-2^32 skipped")
+					c.Outcome("skipped")
+					continue
+				}
+				c.Tick()
+				lib := libVerify(giant, sig, pk, 0)
+				release()
+				c.Eval(1)
+				c.Nontrivial(1)
+				c.Outcome("lib=" + short12(lib))
+				if lib == "true" {
+					c.Fail(i, "message-of-length-2^32+k-accepted-for-the-signature-of-its-k-byte-prefix", map[string]any{"k": k, "message": fmt.Sprintf("%d zero bytes", uint64(1<<32)+uint64(k)), "signed_message": fmt.Sprintf("%d zero bytes", k),
+						"signature": drv.Hex(sig), "public_key": drv.FullHex(pk[:]), "expected": "not accepted (the messages differ)", "observed": lib})
+				}
 			}
 		}})
 	// descriptor sweep
